@@ -25,7 +25,8 @@ PROPERTIES = {
         "rule": HISTORY_RULE + "Non-trivial = an ICS-20-valid packet whose receiver decodes to the orbiter account; distinct by "
                 "(route, denom, amount class, recipient, fee count, dust present, outcome, receiver spelling, raw memo).",
         "assumptions": COMMON_ASSUMPTIONS,
-        "tests": [{"test": "TestC01History", "quick": 400, "thorough": 192000}],
+        "tests": [{"test": "TestC01History", "quick": 400, "thorough": 192000},
+                  {"test": "TestC01LabFaults", "quick": 500, "thorough": 96000}],
     },
     "C02": {
         "level": "exploration",
@@ -34,7 +35,8 @@ PROPERTIES = {
                 "whatever its memo: per-denom deltas sum to the supply delta and the orbiter account has not gained anything. "
                 "Distinct by (route, denom, amount class, recipient, fee count, dust present).",
         "assumptions": COMMON_ASSUMPTIONS,
-        "tests": [{"test": "TestC02History", "quick": 400, "thorough": 192000}],
+        "tests": [{"test": "TestC02History", "quick": 400, "thorough": 192000},
+                  {"test": "TestC02LabFaults", "quick": 500, "thorough": 96000}],
     },
     "C03": {
         "level": "fault_enumeration",
@@ -352,11 +354,14 @@ PROPERTIES["C10"] = {
             "that account succeeds with valid content, every other signer (the default simapp authority, the orbiter/gov/upgrade module accounts, "
             "the raw configuration string, users, empty) is refused with all stores unchanged. "
             "The valid bodies include the largest batches the messages take (100 and 99 identifiers; the prepared state has 100 CCTP domains paused). "
+            "TestC10Replacement: ReplaceDepositForBurn with REAL valid content (an orbiter CCTP deposit attested with the harness attester key), "
+            "with a drawn set of the module's own pauses in force: the authority succeeds and the request reaches CCTP with its fields, any other signer fails with all stores unchanged. "
             "Non-trivial = a case with a valid body; distinct by (configuration, RPC, signer, body).",
-    "assumptions": COMMON_ASSUMPTIONS + ["the positive half (authority + valid body succeeds) covers the known messages; ReplaceDepositForBurn's positive half is C05's real replacement",
+    "assumptions": COMMON_ASSUMPTIONS + ["the positive half (authority + valid body succeeds) covers the known messages; a message added later is covered for the signer check only",
                                          "the authority written in another bech32 spelling is a don't-care"],
     "tests": [{"test": "TestC10Authority", "quick": 4000, "thorough": 1200000},
-              {"test": "TestC10Wiring", "quick": 4000, "thorough": 400000}],
+              {"test": "TestC10Wiring", "quick": 4000, "thorough": 400000},
+              {"test": "TestC10Replacement", "quick": 300, "thorough": 64000}],
 }
 
 PROPERTIES["C13"] = {
